@@ -53,6 +53,10 @@ pub enum Ev {
     /// list takes them out again (the old identity is reported as left, with that address).
     #[serde(rename = "ghosts")]
     Ghosts { t: u64, node: u8, ghosts: Vec<(u8, u8)> },
+    /// from now on every view names `node` with this data centre (same id, same address): an
+    /// attribute of a member changes without the member leaving
+    #[serde(rename = "dc_change")]
+    DcChange { t: u64, node: u8, dc: String },
     /// hours family: a quiet point (no fault active and no operation issued for minutes): every
     /// running node's store must hold exactly the last-writer-wins documents of the operations
     /// issued so far
@@ -74,7 +78,7 @@ pub enum Ev {
 impl Ev {
     pub fn t(&self) -> u64 {
         match self {
-            Ev::Op { t, .. } | Ev::Hold { t, .. } | Ev::Release { t, .. } | Ev::Crash { t, .. } | Ev::Restart { t, .. } | Ev::View { t, .. } | Ev::Replay { t, .. } | Ev::ClockJump { t, .. } | Ev::Move { t, .. } | Ev::PartialBulk { t, .. } | Ev::Ghosts { t, .. } | Ev::Checkpoint { t } | Ev::CancelNext { t, .. } => *t,
+            Ev::Op { t, .. } | Ev::Hold { t, .. } | Ev::Release { t, .. } | Ev::Crash { t, .. } | Ev::Restart { t, .. } | Ev::View { t, .. } | Ev::Replay { t, .. } | Ev::ClockJump { t, .. } | Ev::Move { t, .. } | Ev::PartialBulk { t, .. } | Ev::Ghosts { t, .. } | Ev::DcChange { t, .. } | Ev::Checkpoint { t } | Ev::CancelNext { t, .. } => *t,
         }
     }
 }
@@ -135,6 +139,8 @@ pub struct RunResult {
     pub membership_stale: Vec<String>,
     /// probe_direct: live peers a probe write did not reach by direct replication
     pub direct_misses: Vec<String>,
+    /// probe_direct: writes that were delivered to a node reported as having left
+    pub direct_departed: Vec<String>,
     /// hours family: where a running node's live documents differed from last-writer-wins at a quiet point
     pub checkpoint_diffs: Vec<String>,
 }
@@ -220,7 +226,7 @@ fn validate(sc: &Scenario) -> Result<(), String> {
         let ok = match e {
             Ev::Op { node, spec, .. } => ids.contains(node) && !spec.ids.is_empty(),
             Ev::Hold { a, b, .. } | Ev::Release { a, b, .. } => ids.contains(a) && ids.contains(b) && a != b,
-            Ev::Crash { node, .. } | Ev::Restart { node, .. } | Ev::ClockJump { node, .. } | Ev::Move { node, .. } | Ev::PartialBulk { node, .. } => ids.contains(node),
+            Ev::Crash { node, .. } | Ev::Restart { node, .. } | Ev::ClockJump { node, .. } | Ev::Move { node, .. } | Ev::PartialBulk { node, .. } | Ev::DcChange { node, .. } => ids.contains(node) && (!matches!(e, Ev::DcChange { .. }) || !sc.cfg.real_membership),
             Ev::View { node, members, .. } => ids.contains(node) && members.iter().all(|m| ids.contains(m)),
             Ev::Replay { from, .. } => ids.contains(from),
             Ev::Ghosts { node, ghosts, .. } => ids.contains(node) && ghosts.iter().all(|(g, at)| !ids.contains(g) && ids.contains(at) && at != node),
@@ -295,7 +301,7 @@ fn validate_timely(sc: &Scenario) -> Result<(), String> {
                 }
                 busy_until = busy_until.max(*t);
             },
-            Ev::Replay { .. } | Ev::Move { .. } | Ev::Ghosts { .. } | Ev::CancelNext { .. } => return Err("event kind not used in the hours family".into()),
+            Ev::Replay { .. } | Ev::Move { .. } | Ev::Ghosts { .. } | Ev::DcChange { .. } | Ev::CancelNext { .. } => return Err("event kind not used in the hours family".into()),
             Ev::Checkpoint { t } => {
                 if !open.is_empty() || *t < busy_until + 8 * 60_000 {
                     return Err("quiet point too close to a fault or an operation".into());
@@ -461,6 +467,16 @@ pub fn run_cluster(sc: &Scenario, prop: &str) -> Result<RunResult, String> {
                     out.fault("peer_known_under_a_second_node_id");
                 }
             },
+            Ev::DcChange { node, dc, .. } => {
+                cl.shared.borrow_mut().dc_override.insert(*node, dc.clone());
+                // every running node is handed its current view again, now naming the new data centre
+                let up: Vec<u8> = cl.shared.borrow().up.iter().copied().collect();
+                for n in up {
+                    let cur: BTreeSet<u8> = cl.shared.borrow().views.get(&n).cloned().unwrap_or_else(|| full.clone());
+                    cl.set_view(n, &cur);
+                }
+                out.fault("member_changed_its_data_centre");
+            },
             Ev::ClockJump { node, delta_ms, .. } => {
                 *cl.clock_jumps.borrow_mut().entry(*node).or_insert(0) += delta_ms;
                 *cl.shared.borrow_mut().clock_jump_count.entry(*node).or_insert(0) += 1;
@@ -574,6 +590,7 @@ pub fn run_cluster(sc: &Scenario, prop: &str) -> Result<RunResult, String> {
     }
     // ---- direct replication probe (before any closing exchange) ----
     let mut direct_misses: Vec<String> = Vec::new();
+    let mut direct_departed: Vec<String> = Vec::new();
     let mut probe_direct = sc.probe_direct;
     if probe_direct {
         // the probe judges nodes that have known the full membership for a while: a node needs a
@@ -643,6 +660,44 @@ pub fn run_cluster(sc: &Scenario, prop: &str) -> Result<RunResult, String> {
         }
         drop(sh);
         out.probe("direct_replication_probed");
+        // ... and nobody else: one running node is reported as having left to all the others (its
+        // process stays up, anti-entropy is off), then the others write again. Nothing of that
+        // may arrive at the node that left - replication addresses exactly the live peers.
+        if !sc.cfg.real_membership && sc.cfg.repair_interval_ms >= 3_600_000 && up_now.len() >= 2 {
+            let gone = up_now[(sc.closing_seed % up_now.len() as u64) as usize];
+            let rest: BTreeSet<u8> = up_now.iter().copied().filter(|n| *n != gone).collect();
+            for n in &rest {
+                cl.set_view(*n, &rest);
+            }
+            // the departed node is told it is alone, so nothing it does brings the writes to it
+            cl.set_view(gone, &BTreeSet::new());
+            let t = cl.elapsed_ms();
+            step(&mut cl, t + 3_000)?;
+            for (i, n) in rest.iter().enumerate() {
+                cl.send_cmd(*n, Cmd::Op { op_id: base_id + 100 + i, spec: OpSpec { kind: "put".into(), ks: "zz-probe-2".into(), ids: vec![*n as u64], level: "None".into(), dup: false, empty: false } });
+            }
+            let t = cl.elapsed_ms();
+            step(&mut cl, t + 4_000)?;
+            {
+                let sh = cl.shared.borrow();
+                for n in &rest {
+                    if row_of(&sh.stores[&gone], "zz-probe-2", *n as u64).is_some() {
+                        direct_departed.push(format!(
+                            "node {gone} was reported as having left to node {n} (3 s earlier, membership {:?}), yet a level-None write issued on node {n} afterwards was delivered to it",
+                            sh.views.get(n)
+                        ));
+                    }
+                }
+            }
+            out.probe("departed_peer_probed");
+            // back to the full membership for the closing phase
+            let all_up: BTreeSet<u8> = up_now.iter().copied().collect();
+            for n in &up_now {
+                cl.set_view(*n, &all_up);
+            }
+            let t = cl.elapsed_ms();
+            step(&mut cl, t + 1_500)?;
+        }
     }
 
     if closing_mode == "background" {
@@ -823,7 +878,7 @@ pub fn run_cluster(sc: &Scenario, prop: &str) -> Result<RunResult, String> {
     let cfg = sc.cfg.clone();
     drop(sh);
     drop(cl);
-    Ok(RunResult { out, ops, issued, final_rows, cfg, views_hist, set_store_diffs, membership_diffs, read_diffs, membership_stale, direct_misses, checkpoint_diffs })
+    Ok(RunResult { out, ops, issued, final_rows, cfg, views_hist, set_store_diffs, membership_diffs, read_diffs, membership_stale, direct_misses, direct_departed, checkpoint_diffs })
 }
 
 /// The C01 oracle.
